@@ -206,6 +206,12 @@ func Check(cfg Config, sources []Source) *Result {
 				if u.Map == v && isMap {
 					fault("assignment to entry in nil map")
 				}
+				if u.Value == v && ev == "" {
+					// kept in a map: what readers inside the engine take out of it is nullable
+					for _, e := range mapElems(cfg, u.Map, inEngine, map[ssa.Value]bool{}) {
+						push(e, it.src, it.chain, "kept in a map in "+prog.FuncName(u.Parent())+" and read in "+prog.FuncName(e.(ssa.Instruction).Parent()))
+					}
+				}
 			case *ssa.Slice:
 				if u.X == v {
 					if _, isPtr := v.Type().Underlying().(*types.Pointer); isPtr {
@@ -326,6 +332,85 @@ func Check(cfg Config, sources []Source) *Result {
 		return a.Instr.Pos() < b.Instr.Pos()
 	})
 	return res
+}
+
+// mapElems: the values that engine code reads out of the map m (lookups and range values), following m through
+// phis, local variables and its return to static callers inside the engine.
+func mapElems(cfg Config, m ssa.Value, inEngine func(*ssa.Function) bool, seen map[ssa.Value]bool) []ssa.Value {
+	if m == nil || seen[m] {
+		return nil
+	}
+	seen[m] = true
+	var out []ssa.Value
+	for _, r := range ssau.Referrers(m) {
+		switch u := r.(type) {
+		case *ssa.Lookup:
+			if u.X != m {
+				continue
+			}
+			if u.CommaOk {
+				for _, r2 := range ssau.Referrers(u) {
+					if ex, ok := r2.(*ssa.Extract); ok && ex.Index == 0 {
+						out = append(out, ex)
+					}
+				}
+			} else {
+				out = append(out, u)
+			}
+		case *ssa.Range:
+			for _, r2 := range ssau.Referrers(u) {
+				if nx, ok := r2.(*ssa.Next); ok {
+					for _, r3 := range ssau.Referrers(nx) {
+						if ex, ok := r3.(*ssa.Extract); ok && ex.Index == 2 {
+							out = append(out, ex)
+						}
+					}
+				}
+			}
+		case *ssa.Phi:
+			out = append(out, mapElems(cfg, u, inEngine, seen)...)
+		case *ssa.Store:
+			if al, ok := u.Addr.(*ssa.Alloc); ok && u.Val == m {
+				for _, r2 := range ssau.Referrers(al) {
+					if ld, ok := r2.(*ssa.UnOp); ok && ld.Op == token.MUL {
+						out = append(out, mapElems(cfg, ld, inEngine, seen)...)
+					}
+				}
+			}
+		case *ssa.Return:
+			fn := u.Parent()
+			idx := -1
+			for i, rv := range u.Results {
+				if rv == m {
+					idx = i
+				}
+			}
+			if idx < 0 {
+				continue
+			}
+			for _, g := range cfg.Prog.AllFuncs {
+				if !inEngine(g) {
+					continue
+				}
+				ssau.Instrs(g, func(in ssa.Instruction) {
+					cl, ok := in.(*ssa.Call)
+					if !ok || cl.Common().StaticCallee() != fn {
+						return
+					}
+					if len(u.Results) == 1 {
+						out = append(out, mapElems(cfg, cl, inEngine, seen)...)
+					} else {
+						for _, r2 := range ssau.Referrers(cl) {
+							if ex, ok := r2.(*ssa.Extract); ok && ex.Index == idx {
+								out = append(out, mapElems(cfg, ex, inEngine, seen)...)
+							}
+						}
+					}
+				})
+			}
+		}
+	}
+	return out
 }
 
 // FieldLoads lists every load of typ.field in the given functions.
